@@ -213,7 +213,7 @@ def e2e_cases(pid, tier, rng):
         lay = textgen.e2e_layout(rng, Bfocus, nmsgs=rng.choice([1, 2, 3, 5, 9, 20]), final_nl=rng.random() < 0.7,
                                  long_lines=(fi % 3 == 0), first_undated=rng.choice([0, 0, 0, 1, 2]),
                                  crlf=(fi % 4 == 1), safe_head=(fi % 5 != 4),
-                                 notation=textgen.NOTATIONS[(fi // 2) % len(textgen.NOTATIONS)])
+                                 notation=textgen.NOTATIONS[(fi // 2) % len(textgen.NOTATIONS)], early_nul=(fi % 6 == 2))
         if lay.size <= 5:
             continue
         bss = [Bfocus, Bfocus + 1, 64, 65536]
@@ -338,10 +338,14 @@ def run(pid, tier, seed):
             if case.note.get("colour") == "always":
                 # with colour the escape sequences are part of what is printed: the same run at a block size that holds the
                 # whole file in one block is the reference for them (byte for byte)
-                ref_argv = [("16777215" if j > 0 and case.argv[j - 1] == "--blocksz" else a_) for j, a_ in enumerate(case.argv)]
-                ref = Case(case.files, ref_argv, None, timeout=60).run(os.path.join(sc, "e2e", "r%d" % i))
-                rr.raw_ref = ref.out
-                rr.raw_out = rr.out
+                # (the largest block size at which block-zero analysis is predicted to take the file: at the others the
+                # reference itself falls under the recorded finding blockzero-reject and prints nothing)
+                refB = next((b for b in (0xFFFFFF, 65536, 4096, 1024, 256) if b != B and textgen.blockzero_predict(lay, b) == "accept"), None)
+                if refB is not None:
+                    ref_argv = [(str(refB) if j > 0 and case.argv[j - 1] == "--blocksz" else a_) for j, a_ in enumerate(case.argv)]
+                    ref = Case(case.files, ref_argv, None, timeout=60).run(os.path.join(sc, "e2e", "r%d" % i))
+                    rr.raw_ref = ref.out
+                    rr.raw_out = rr.out
             return rr
 
         t0 = time.time()
@@ -376,7 +380,7 @@ def run(pid, tier, seed):
             if rr.out == case.expected and rr.raw_ref is not None and rr.raw_out != rr.raw_ref:
                 rep.violation("e2e:colour-by-blocksz:%s" % cont,
                               "--color always: the bytes written (escape sequences included) at --blocksz %d differ from those at a block "
-                              "size holding the whole file, at byte %d (%d vs %d bytes)" % (B, first_diff(rr.raw_out, rr.raw_ref), len(rr.raw_out), len(rr.raw_ref)),
+                              "reference block size, at byte %d (%d vs %d bytes)" % (B, first_diff(rr.raw_out, rr.raw_ref), len(rr.raw_out), len(rr.raw_ref)),
                               case.replay_record(rr))
                 continue
             if rr.out == case.expected:
